@@ -176,6 +176,27 @@ class BasicBlockNode:
 
             instr_index += 1
 
+    def index_of(self, instr: Instr) -> int:
+        """Provides the index of an instruction in the basic block itself.
+
+        Unlike the indices accepted by `try_get_instruction`, the result also counts
+        the pseudo-instructions (TryBegin, TryEnd) of the block, so it can be used to
+        insert into the basic block.
+
+        Args:
+            instr: The instruction object to look for
+
+        Returns:
+            The index of the instruction in the basic block
+
+        Raises:
+            ValueError: If the instruction is not part of the basic block
+        """
+        for index, candidate in enumerate(self._basic_block):
+            if candidate is instr:
+                return index
+        raise ValueError("Instruction is not part of the basic block")
+
     def find_instruction_by_original_index(self, original_index: int) -> tuple[int, Instr]:
         """Find an index and instruction by its original index.
 
